@@ -19,9 +19,19 @@ def compile_src(src):
                        build="chk", timeout=60)
 
 
-def run_src(src):
-    """-> ('ok', stdout lines) | ('rejected', codes) | ('crash', sig)"""
-    k, r = compile_src(src)
+UNITS = ("const U_A: i32 = 1;\nconst U_B: u8 = 2;\nconst U_C: i64 = 64;\nconst U_D: u32 = 7;\nconst U_E: i16 = -5;\n"
+         "const U_F: usize = 3;\nconst U_G: u64 = 100;\nconst U_H: i8 = 9;\n\npub fn units_total() -> i64\n{\n"
+         "\treturn: U_A as i64 + U_B as i64 + U_C + U_D as i64 + U_E as i64 + U_F as i64 + U_G as i64 + U_H as i64\n}\n")
+
+
+def run_src(src, after_units=False):
+    """-> ('ok', stdout lines) | ('rejected', codes) | ('crash', sig).  after_units: the program is the second module of the
+    compilation, after an unrelated module that declares constants of its own (evaluation must not depend on that)."""
+    if after_units:
+        k, r = common.call({"op": "alpha_compile", "files": [{"path": "units.pn", "src": UNITS}, {"path": "c10.pn", "src": src}],
+                            "ir": True, "module_ir": False}, build="chk", timeout=60)
+    else:
+        k, r = compile_src(src)
     if k == "crash":
         return "crash", r.signature()
     if k == "panic":
@@ -75,9 +85,10 @@ def run_const(case):
     except interp.Undefined:
         return {"verdict": None, "cov": {"discarded_ub": 1}}
     src = gen_prog.to_source(prog, gen_prog.Style(rng=common.rng_for(seed, "style", i), paren="min", lit="varied"))
-    st, res = run_src(src)
-    replay = {"source": src, "expected": out.decode("latin-1")}
-    cov = {"const_programs": 1, "const_expressions": len(types)}
+    after_units = i % 4 == 3
+    st, res = run_src(src, after_units)
+    replay = {"source": src, "expected": out.decode("latin-1"), "after_units_module": after_units}
+    cov = {"const_programs": 1, "const_expressions": len(types), "const_programs_after_another_module": int(after_units)}
     for k in gcov:
         if k.startswith(("bin:", "cast:", "un:", "sizeof")):
             cov["cexpr:" + k] = 1
@@ -197,7 +208,11 @@ def run_layout(case):
         decls.append("struct %s\n{\n%s}\n" % (name, "".join("\tf%d: %s,\n" % (q, m) for q, m in enumerate(mem))))
         names.append(name)
     t = rng.choice(names + [rng.choice(PRIMS), "[3]" + rng.choice(PRIMS)])
-    src = "".join(decls) + "struct Probe\n{\n\tm0: T,\n\tm1: T,\n\tm2: T,\n}\n".replace("T", t)
+    # the same sizes as module constants, declared anywhere among the structures (before or after what they measure)
+    decls.append("struct Probe\n{\n\tm0: T,\n\tm1: T,\n\tm2: T,\n}\n".replace("T", t))
+    for cdecl in ("const SZ: usize = |:T|;\n", "const SZ5: usize = |:[5]T|;\n", "const SZP: usize = |:Probe| + 0;\n"):
+        decls.insert(rng.randrange(len(decls) + 1), cdecl.replace("T", t))
+    src = "".join(decls)
     src += """fn main() -> i32
 {
 	var pr: Probe;
@@ -210,6 +225,7 @@ def run_layout(case):
 	print!(|:T|, "\\n");
 	print!(|:Probe|, "\\n");
 	print!(|:[5]T|, "\\n");
+	print!(SZ, " ", SZ5, " ", SZP, "\\n");
 	return: 0
 }
 """.replace("T", t)
@@ -224,6 +240,9 @@ def run_layout(case):
         size, probe, arr5 = int(res[3]), int(res[4]), int(res[5])
     except ValueError:
         return {"verdict": INCONCLUSIVE, "detail": "unparsable addresses"}
+    if len(res) > 6 and res[6].split() != [str(size), str(arr5), str(probe)]:
+        return {"verdict": VIOLATED, "sig": "size-of in a module constant differs from size-of in a function",
+                "detail": {"type": t, "in_function": [size, arr5, probe], "constants": res[6]}, "replay": replay, "cov": cov}
     if a1 - a0 != size or a2 - a1 != size:
         return {"verdict": VIOLATED, "sig": "|:T| differs from the storage T occupies (measured stride)",
                 "detail": {"type": t, "sizeof": size, "stride": [a1 - a0, a2 - a1]}, "replay": replay, "cov": cov}
